@@ -130,6 +130,9 @@ pub enum CEvent {
     ReqJ(Token),
     /// one task awaiting `select` over two shell requests
     ReqS(Token),
+    /// a command that aborts itself: task B: request -> event; task A: request, then the
+    /// command's own AbortHandle ("first to finish wins"), no output
+    ReqA(Token),
     /// nothing: one further core call
     Noop,
     Sub(Token),
@@ -215,6 +218,19 @@ where
             };
             ctx.send_event(CEvent::Got(out, tok));
         }),
+        CEvent::ReqA(tok_b) => {
+            let mut cmd = Command::request_from_shell(COp::Ask(Token::new()))
+                .then_send(move |o| CEvent::Got(o, tok_b));
+            let own = cmd.abort_handle();
+            let tok_a = Token::new();
+            cmd.spawn(move |ctx| async move {
+                let _held = tok_a;
+                let _out = ctx.request_from_shell(COp::Ask(Token::new())).await;
+                // first to finish wins: cancel whatever else this command is still doing
+                own.abort();
+            });
+            cmd
+        }
         CEvent::Noop => Command::done(),
         CEvent::Joined(_tok) => {
             sat_inc(&mut model.got);
